@@ -8,11 +8,65 @@ from .symx import SymInt, SymBool
 
 
 def gcd(*args):
-    if any(type(a) in (SymInt, SymBool) for a in args):
-        # Euclid on symbolic ints, concretising by fork (ranges are small where this is used)
-        vals = [int(a) if type(a) in (SymInt, SymBool) else a for a in args]
-        return _gcd(*vals)
-    return _gcd(*args)
+    """math.gcd on symbolic ints: largest g dividing every argument, as an ite chain (small ranges only)"""
+    if not any(type(a) in (SymInt, SymBool) for a in args):
+        return _gcd(*args)
+    import z3
+
+    from .symx import Unsupported, _mk
+
+    vals = [abs(SymInt.lift(a)) for a in args]
+    m = min((v.hi for v in vals if v.hi > 0), default=0)  # gcd <= every non-zero argument; conservative bound
+    m = max(v.hi for v in vals) if m == 0 else max(v.hi for v in vals)
+    if m > 128:
+        return _gcd(*[int(a) if type(a) in (SymInt, SymBool) else a for a in args])
+    w = max(max(v.e.size() for v in vals), 9)
+    xs = [v.ext(w) for v in vals]
+    e = z3.BitVecVal(0, w)  # all arguments zero
+    for g in range(1, m + 1):
+        divides = z3.And(*[z3.URem(x, z3.BitVecVal(g, w)) == 0 for x in xs])
+        nonzero = z3.Or(*[x != 0 for x in xs])
+        e = z3.If(z3.And(divides, nonzero), z3.BitVecVal(g, w), e)
+    return _mk(e, 0, m)
+
+
+def _round_int(x, rm_name):
+    import z3
+
+    from .symfloat import SymFloat, float_to_int
+
+    rm = {"ceil": z3.RTP(), "floor": z3.RTN(), "trunc": z3.RTZ()}[rm_name]
+    return float_to_int(SymFloat(z3.fpRoundToIntegral(rm, x.e)))
+
+
+def ceil(x):
+    from .symfloat import SymFloat
+
+    if type(x) is SymFloat:
+        return _round_int(x, "ceil")
+    if type(x) in (SymInt, SymBool):
+        return SymInt.lift(x)
+    return _m.ceil(x)
+
+
+def floor(x):
+    from .symfloat import SymFloat
+
+    if type(x) is SymFloat:
+        return _round_int(x, "floor")
+    if type(x) in (SymInt, SymBool):
+        return SymInt.lift(x)
+    return _m.floor(x)
+
+
+def trunc(x):
+    from .symfloat import SymFloat
+
+    if type(x) is SymFloat:
+        return _round_int(x, "trunc")
+    if type(x) in (SymInt, SymBool):
+        return SymInt.lift(x)
+    return _m.trunc(x)
 
 
 def __getattr__(name):
